@@ -105,7 +105,7 @@ def enc_snaps(snaps):
                                             for lbl, ents in s['timings']) + ']' for s in snaps) + ']'
 
 
-HEADER = 'From Coq Require Import List ZArith.\nFrom LP Require Import Trace.ZMap Trace.Concrete Trace.Spec.\nImport ListNotations.\nOpen Scope Z_scope.\n'
+HEADER = 'From Coq Require Import List ZArith.\nFrom LP Require Import Trace.ZMap Trace.Concrete Trace.Spec Trace.Shard.\nImport ListNotations.\nOpen Scope Z_scope.\n'
 
 
 def coq_verdicts(name, progs_, outs, with_time_flags):
@@ -131,12 +131,13 @@ def coq_verdicts(name, progs_, outs, with_time_flags):
         rows = []
         for i in sh:
             o = outs[i]
-            rows.append('(verdicts4 %s %d %s %s %s)' % (enc_codes(o['codes']), progs_[i].get('tick', 0),
+            rows.append('(verdicts5 %s %d %s %s %s)' % (enc_codes(o['codes']), progs_[i].get('tick', 0),
                                                         'true' if with_time_flags[i] else 'false',
                                                         enc_ops(o['ops']), enc_snaps(o['snaps'])))
-        body = 'Definition rows : list (bool * bool * bool * bool) := [\n' + ';\n'.join(rows) + '].\n'
+        body = 'Definition rows : list (bool * bool * bool * bool * bool) := [\n' + ';\n'.join(rows) + '].\n'
         body += 'Definition fi (l : list bool) := (fix go (i : Z) (l : list bool) := match l with [] => [] | b :: t => if b then go (i+1) t else i :: go (i+1) t end) 0 l.\n'
-        body += 'Eval vm_compute in (fi (map (fun r => fst (fst (fst r))) rows)).\n'
+        body += 'Eval vm_compute in (fi (map (fun r => fst (fst (fst (fst r)))) rows)).\n'
+        body += 'Eval vm_compute in (fi (map (fun r => snd (fst (fst (fst r)))) rows)).\n'
         body += 'Eval vm_compute in (fi (map (fun r => snd (fst (fst r))) rows)).\n'
         body += 'Eval vm_compute in (fi (map (fun r => snd (fst r)) rows)).\n'
         body += 'Eval vm_compute in (fi (map (fun r => snd r) rows)).\n'
@@ -145,12 +146,12 @@ def coq_verdicts(name, progs_, outs, with_time_flags):
     verdict = {}
     errors = []
     for sh, r in zip(shards, res):
-        if r[0] != 'ok' or len(r[1]) != 4:
+        if r[0] != 'ok' or len(r[1]) != 5:
             errors.append(str(r[1])[-800:])
             continue
         bad = [set(x) for x in r[1]]
         for j, i in enumerate(sh):
-            verdict[i] = (j not in bad[0], j not in bad[1], j not in bad[2], j not in bad[3])
+            verdict[i] = (j not in bad[0], j not in bad[1], j not in bad[2], j not in bad[3], j not in bad[4])
     return verdict, errors
 
 
@@ -259,22 +260,39 @@ def hypotheses(o):
             res['LabelsDistinct'] = False
             wit.setdefault('LabelsDistinct', dict(label=lbl, codes=[seen[lbl], c]))
         seen.setdefault(lbl, c)
-    # NoCollision: (code, line) -> LH injective over registered and executed codes
-    keys = {}
-    for c in set(reg) | executed:
-        for l in codes[c]['lines']:
-            key = codes[c]['hash'] ^ l
-            ident = (codes[c]['b'], codes[c]['k'], codes[c]['lbl'])
-            if key in keys and keys[key] != ident:
+    # NoCollision, as Trace/Main.v defines it: registered codes have pairwise distinct hashes; line hashes of
+    # (registered code, line of its table) never coincide with those of another registered (code, line) or of
+    # the (code, line) of any event in the history
+    regs = list(dict.fromkeys(reg))
+    for i, c1 in enumerate(regs):
+        for c2 in regs[i + 1:]:
+            if codes[c1]['hash'] == codes[c2]['hash']:
                 res['NoCollision'] = False
-                a = keys[key]
-                w = dict(a=list(a), b=list(ident), line=l,
-                         same_bytecode=(a[0], a[1]) == (ident[0], ident[1]),
-                         a_registered=any((codes[x]['b'], codes[x]['k'], codes[x]['lbl']) == a for x in reg),
-                         b_registered=c in reg)
-                wit.setdefault('collisions', []).append(w)
-                wit.setdefault('NoCollision', w)
-            keys.setdefault(key, ident)
+    points = set()
+    for op in o['ops']:
+        if op[0] in ('L', 'R'):
+            points.add((op[2], op[5]))
+    keys = {}
+    for c in regs:
+        for l in codes[c]['lines']:
+            keys.setdefault(codes[c]['hash'] ^ l, []).append((c, l, True))
+    regset = set(regs)
+    for (c, l) in points:
+        keys.setdefault(codes[c]['hash'] ^ l, []).append((c, l, c in regset))
+    for key, lst in keys.items():
+        for (c1, l1, r1) in lst:
+            if not r1:
+                continue
+            for (c2, l2, r2) in lst:
+                if (c2, l2) != (c1, l1) and (r2 and c1 != c2 or not r2):
+                    if not r2 or c1 != c2:
+                        res['NoCollision'] = False
+                        a = (codes[c1]['b'], codes[c1]['k'], codes[c1]['lbl'])
+                        b = (codes[c2]['b'], codes[c2]['k'], codes[c2]['lbl'])
+                        w = dict(a=list(a), b=list(b), line=l1, same_bytecode=(a[0], a[1]) == (b[0], b[1]),
+                                 a_registered=True, b_registered=c2 in regset)
+                        wit.setdefault('collisions', []).append(w)
+                        wit.setdefault('NoCollision', w)
     return res, wit
 
 
@@ -375,7 +393,7 @@ def run_property(prop, module, theorems, tier, seed, nquick, nthorough, feature_
     import time as _time
     rnd = core.rng(seed, prop)
     res = core.Result(prop)
-    res.obl = core.check_obligations(prop, module, theorems, extra_vo=['theories/Trace/Spec.vo'])
+    res.obl = core.check_obligations(prop, module, theorems, extra_vo=['theories/Trace/Shard.vo'])
     if tier == 'thorough' and not res.obl['failures']:
         core.thorough_coqchk(res, module)
     impl = core.build_impl()
@@ -441,6 +459,8 @@ def run_property(prop, module, theorems, tier, seed, nquick, nthorough, feature_
             if any(op[0] == 'L' for op in o['ops']):
                 nontrivial.add(json.dumps(o['ops'][:400]))
         v = verdict.get(i)
+        if v is not None and hyp and v[4] != hyp['NoCollision']:
+            res.infra_errors.append('no_collision evaluated in Coq (%s) and in Python (%s) disagree on program %d' % (v[4], hyp['NoCollision'], i))
         if v is not None and not v[0]:
             res.mismatches.append(dict(case=sample(p, o, 40), program=p['files'], impl=dict(snaps=o['snaps'][:2]),
                                        model='concrete tracer model disagrees with the implementation'))
